@@ -467,13 +467,17 @@ func TestC13(t *testing.T) {
 		}
 		// TEXT with a vocabulary far beyond the dictionary (2^19 entries: the dynamic part wraps around), both codec
 		// variants (selected by the entropy name)
-		for _, en := range []string{"NONE", "FPAQ"} {
+		for i, en := range []string{"NONE", "FPAQ", "FPAQ", "HUFFMAN", "CM"} {
 			idx++
 			if !r.Mine(idx) || r.Failed() {
 				continue
 			}
-			c := C13Case{Transform: "TEXT", Direct: idx%2 == 0, Entropy: en, DataType: -1, Jobs: 1,
-				Data: gen.Recipe{Kind: gen.KLatin1, Len: r.Pick(10, 24) << 20, Seed: uint64(idx), P1: 0, P2: 100}}
+			rc := gen.Recipe{Kind: gen.KLatin1, Len: r.Pick(10, 24) << 20, Seed: uint64(idx), P1: 0, P2: 100}
+			if i >= 2 {
+				// vocabularies of 20000..62000 words used again and again, 1.5 MiB
+				rc.Len, rc.P2 = 3<<19, []int{150, 255, 175}[i-2]
+			}
+			c := C13Case{Transform: "TEXT", Direct: idx%2 == 0, Entropy: en, DataType: -1, Jobs: 1, Data: rc}
 			o := c13Eval(r, c)
 			r.Label("directed:huge-vocabulary")
 			if o.msg != "" {
